@@ -868,7 +868,17 @@ func applyJSONFault(doc []byte, a, b int) ([]byte, bool) {
 
 // neighbourString returns a string that differs slightly from s.
 func neighbourString(s string, variant int) string {
-	switch abs(variant) % 14 {
+	switch abs(variant) % 18 {
+	case 14:
+		// printf directives (a width with an explicit argument index re-prints an operand padded to 10^6 columns)
+		return strings.Repeat("%1000000[1]v", 24)
+	case 15:
+		return "%s%d%v%!(EXTRA %n %[3]*.[2]*[1]f"
+	case 16:
+		// glob / regexp metacharacters: many wildcards, then a character that cannot match
+		return strings.Repeat("*", 28) + "!"
+	case 17:
+		return "(((((a*)*)*)*)*)*[[[[^^$$..\\E"
 	case 10:
 		return s + "#"
 	case 11:
@@ -912,7 +922,7 @@ func applyProfileFault(msg []byte, variant int, isJSON bool) ([]byte, bool) {
 		if !ok || root.kind != 'o' {
 			return msg, false
 		}
-		if abs(variant)%12 >= 10 {
+		if abs(variant)%20 >= 18 {
 			// the document now also carries the OTHER built-in profile's member, with that profile's name
 			for _, k := range root.keys {
 				other, val := "", ""
